@@ -95,6 +95,8 @@ type Sys struct {
 	lastUnreg *ecs.CachedFilter
 	chaosSeq  int
 	mappers   [nStaticRes]interface{} // persistent generic.Resource mappers
+
+	listenerRes bool
 }
 
 var allSubs = event.Subscription(63)
@@ -105,7 +107,7 @@ func NewSys(name string, p *Plan) *Sys {
 	if p.CapInc == 128 && p.RelCapInc == 0 {
 		w = ecs.NewWorld() // the default configuration, spelled the way most users do
 	}
-	s := &Sys{Name: name, W: &w, cfg: cfg, specs: p.Types, idxOfID: map[uint8]int{}}
+	s := &Sys{Name: name, W: &w, cfg: cfg, specs: p.Types, idxOfID: map[uint8]int{}, listenerRes: p.ListenerRes}
 	ptrSeq := 0
 	for k, t := range p.Types {
 		s.Types = append(s.Types, BuildType(t, k, &ptrSeq))
@@ -138,7 +140,7 @@ func (s *Sys) RegisterType(k int) (msg string, panicked bool) {
 		}
 	}()
 	for s.fillersDone(k) < s.specs[k].Fillers {
-		ecs.TypeID(s.W, FillerType(s.nextFill))
+		registerFiller(s.W, s.nextFill)
 		s.regOrder = append(s.regOrder, -1-s.nextFill)
 		s.nextFill++
 		s.fillCount[k]++
@@ -836,7 +838,13 @@ func (s *Sys) Apply(op *COp) (res Result) {
 		// handled by the engine (AddSlot)
 	case "freg":
 		switch op.Variant {
-		case "Register":
+		case "Register", "RegisterStorm":
+			// a storm is op.Count register/unregister cycles of the same filter first: IDs of registrations are
+			// consumed, nothing else may change
+			for i := 0; op.Variant == "RegisterStorm" && i < op.Count; i++ {
+				tmp := w.Cache().Register(s.Filters[op.Slot])
+				w.Cache().Unregister(&tmp)
+			}
 			cf := w.Cache().Register(s.Filters[op.Slot])
 			s.Cached[op.Slot] = &cf
 		case "RegisterCached":
@@ -884,6 +892,9 @@ func (s *Sys) Apply(op *COp) (res Result) {
 				v = &SR3{S: "r"}
 			default:
 				v = &Canary{ID: uint64(op.K)}
+				if s.listenerRes && s.lis != nil && op.Res == len(s.ResIDs)-1 {
+					v = s.lis // the installed listener doubles as a resource (as the Dispatch documentation suggests)
+				}
 			}
 			w.Resources().Add(id, v)
 			res.Any = v
